@@ -804,11 +804,11 @@ class CircuitTemplate(AbstractBaseTemplate):
 
         # group edges that should be vectorized
         old_edges = self.collect_edges(delay_info=True)
-        edge_col = self._group_edges(edges=old_edges)
+        edge_col = self._group_edges(edges=old_edges, merge=vectorize)
 
         # create final set of vectorized edges
         edges = []
-        for (source, target, template, _), values in edge_col.items():
+        for (source, target, template, *_), values in edge_col.items():
 
             # update edge template default values with passed edge values,
             if (source, target) in edge_values:
@@ -1493,7 +1493,7 @@ class CircuitTemplate(AbstractBaseTemplate):
             net = net.circuits[list(net.circuits)[0]]
         return circuit_lvls
 
-    def _group_edges(self, edges: list) -> dict:
+    def _group_edges(self, edges: list, merge: bool = True) -> dict:
 
         # get label map and indices from self
         label_map = self._vectorization_labels
@@ -1515,11 +1515,15 @@ class CircuitTemplate(AbstractBaseTemplate):
             t_idx = indices[target]
             edge_len = len(s_idx)
 
-            # group edges that connect the same vectorized node variables via the same edge templates
-            if (source_new, target_new, template, delayed) in edge_col:
+            # group edges that connect the same vectorized node variables via the same edge templates. Without
+            # vectorization every edge gets its own edge node, so edges are never merged into one group then
+            # (two edges between the same variables may well share one EdgeTemplate object).
+            group_key = (source_new, target_new, template, delayed) if merge else \
+                (source_new, target_new, template, delayed, len(edge_col))
+            if group_key in edge_col:
 
                 # extend edge dict by edge variables
-                base_dict = edge_col[(source_new, target_new, template, delayed)]
+                base_dict = edge_col[group_key]
                 for key, val in edge_dict.items():
                     val = [val] * edge_len
                     base_dict[key].extend(val)
@@ -1535,7 +1539,7 @@ class CircuitTemplate(AbstractBaseTemplate):
                 edge_dict['target_idx'] = list(t_idx)
 
                 # add edge dict to edge collection
-                edge_col[(source_new, target_new, template, delayed)] = edge_dict
+                edge_col[group_key] = edge_dict
 
         return edge_col
 
